@@ -312,7 +312,24 @@ def model_cc():
         default_raw = False
     else:
         raise TranslateError("Model::getDefinition: name of the default definition not recognised")
-    return dict(prefix=prefix, rule=rule, default_raw=default_raw)
+    # how formal arguments are created (Model::getDefinition, ModelBuilder::addToTheoryFunction)
+    mb = norm(strip_cpp_comments(read("src/models/ModelBuilder.cc")))
+    old_d = "for (int i = 0; i < (int)logic.getSym(sr).nargs(); i++) { SRef argSort = logic.getSym(sr)[i]; std::stringstream ss; ss << varNameBase << i; formalArgs[i] = logic.mkVar(argSort, ss.str().c_str()); }"
+    new_d = ("unsigned num = 0; for (int i = 0; i < (int)logic.getSym(sr).nargs(); i++) { SRef argSort = logic.getSym(sr)[i]; std::string name; "
+             "do { name = varNameBase + std::to_string(num++); } while (not isFormalArgNameFree(logic, name, argSort)); formalArgs[i] = logic.mkVar(argSort, name.c_str()); }")
+    old_b = "for (PTRef v : vals) { std::stringstream ss; ss << formalArgPrefix << uniqueNum++; formalArgs.push(logic.mkVar(logic.getSortRef(v), ss.str().c_str())); }"
+    new_b = ("for (PTRef v : vals) { std::string name; do { name = formalArgPrefix + std::to_string(uniqueNum++); } "
+             "while (not Model::isFormalArgNameFree(logic, name, logic.getSortRef(v))); formalArgs.push(logic.mkVar(logic.getSortRef(v), name.c_str())); }")
+    free_fn = ("bool Model::isFormalArgNameFree(Logic & logic, std::string const & name, SRef sort) { if (not logic.hasSym(name.c_str())) { return true; } "
+               "for (SymRef homonym : logic.symNameToRef(name.c_str())) { Symbol const & symbol = logic.getSym(homonym); "
+               "if (symbol.nargs() != 0 or symbol.rsort() != sort) { return false; } } return true; }")
+    if old_d in b and old_b in mb:
+        unchecked = True
+    elif new_d in b and new_b in mb and free_fn in norm(t):
+        unchecked = False
+    else:
+        raise TranslateError("creation of formal arguments (Model::getDefinition / ModelBuilder::addToTheoryFunction) not recognised")
+    return dict(prefix=prefix, rule=rule, default_raw=default_raw, unchecked=unchecked)
 
 
 def interpret_cc():
@@ -431,6 +448,7 @@ def generate():
     L.append("Definition gen_formal_prefix : string := %s." % coq_str(md["prefix"]))
     L.append("Definition gen_formal_collision_own_name_only : bool := %s." % coq_bool(md["rule"] == "own-name-only"))
     L.append("Definition gen_default_definition_raw_name : bool := %s." % coq_bool(md["default_raw"]))
+    L.append("Definition gen_formal_args_unchecked : bool := %s." % coq_bool(md["unchecked"]))
     L.append("")
     L.append("(* src/api/Interpret.cc, src/unsatcores/UnsatCore.cc, src/sorts/SStore.h *)")
     L.append("Definition gen_safe_prefix_char : string := %s." % coq_str(ip["safe_char"]))
